@@ -16,7 +16,8 @@ ALL = _asm.x86_operands()
 VARIANTS = [v for v in ALL if v[1][0] != "id"]
 LONE = [v for v in ALL if v[1][0] in ("id",)] + [v for v in ALL if v[1][0] == "mem"][:8]
 FILE_LINES = [("", "blank"), ("   ", "blank"), ("\t", "blank"), ("# a comment", "comment"), ("  # indented comment", "comment"), (".L5:", "label"), (".L6:   # with comment", "label"),
-              (".p2align 4,,10", "directive"), ("\t.byte 100,103,144 # marker", "directive"), ("\tvaddpd\t%xmm1, %xmm2, %xmm3", "instruction"), ("movq 8(%rax,%rcx,4), %rdx # load", "instruction"), ("ret", "instruction")]
+              (".p2align 4,,10", "directive"), ("\t.byte 100,103,144 # marker", "directive"), ("\tvaddpd\t%xmm1, %xmm2, %xmm3", "instruction"), ("movq 8(%rax,%rcx,4), %rdx # load", "instruction"), ("ret", "instruction"),
+              ("  ret", "instruction"), ("ret  ", "instruction"), ("# a comment  ", "comment")]      # same content, other white space
 
 CELLS = make("x86", P, VARIANTS, LONE, _asm.X86_LAYOUTS, _asm.render_x86, _asm.line_ok, "#", ["movq", "vfmadd231pd", "jmp"], FILE_LINES)
 
